@@ -193,6 +193,7 @@ class Shadow:
         if req.get('answered') == data:
             return
         req['answered'] = data
+        req['resp_inner'] = inner
         if h['exch'] == codec.IKE_AUTH:
             self._child(rec, req, inner, src, dst, ike_auth=True)
         elif h['exch'] == codec.CREATE_CHILD_SA:
